@@ -2,7 +2,9 @@
 """Run checks against a scratch copy of the repository with a patch applied
 (or a commit reverted). Analysis of variant *source*; nothing is executed.
 
-  on_variant.py [--patch FILE]... [--revert COMMIT]... [--reverse-patch FILE] PROP [PROP...]
+  on_variant.py [--base COMMIT] [--patch FILE]... [--revert COMMIT]... [--reverse-patch FILE] PROP [PROP...]
+
+--base COMMIT starts from that commit of /repo (git archive) instead of the current working tree.
 
 The scratch copy lives under $(mktemp -d) outside /repo and /verif and is removed
 afterwards, together with the evidence the runs wrote.
@@ -17,12 +19,15 @@ REPO = os.environ.get("ILCHECK_REPO", "/repo")
 def main():
     args = sys.argv[1:]
     patches, reverts, rpatches, props = [], [], [], []
+    base = None
     i = 0
     while i < len(args):
         if args[i] == "--patch":
             patches.append(os.path.abspath(args[i + 1])); i += 2
         elif args[i] == "--reverse-patch":
             rpatches.append(os.path.abspath(args[i + 1])); i += 2
+        elif args[i] == "--base":
+            base = args[i + 1]; i += 2
         elif args[i] == "--revert":
             reverts.append(args[i + 1]); i += 2
         else:
@@ -33,9 +38,16 @@ def main():
     rc_all = 0
     try:
         os.makedirs(scratch)
-        subprocess.check_call(["rsync", "-a", "--exclude", "target", "--exclude", ".git", "--exclude", "gui", "--exclude", "front",
-                               "--exclude", "content", "--exclude", "demo", "--exclude", "packages",
-                               REPO + "/", scratch + "/"])
+        if base:
+            ar = subprocess.Popen(["git", "-C", "/repo", "archive", base], stdout=subprocess.PIPE)
+            subprocess.check_call(["tar", "-x", "-C", scratch, "--exclude=gui", "--exclude=front", "--exclude=content", "--exclude=demo", "--exclude=packages"], stdin=ar.stdout)
+            ar.wait()
+            if not os.path.exists(os.path.join(scratch, "Cargo.lock")):
+                shutil.copy("/repo/Cargo.lock", os.path.join(scratch, "Cargo.lock"))
+        else:
+            subprocess.check_call(["rsync", "-a", "--exclude", "target", "--exclude", ".git", "--exclude", "gui", "--exclude", "front",
+                                   "--exclude", "content", "--exclude", "demo", "--exclude", "packages",
+                                   REPO + "/", scratch + "/"])
         for c in reverts:
             d = subprocess.check_output(["git", "-C", "/repo", "show", "--format=", c, "--", "src"])
             if subprocess.run(["patch", "-R", "-p1", "-s", "-f", "--dry-run", "-d", scratch], input=d, stdout=subprocess.DEVNULL, stderr=subprocess.DEVNULL).returncode != 0:
